@@ -371,6 +371,45 @@ class C13(Check):
             out.append({"args": args, "data": d, "resp": ("rand", 7)})
         return out
 
+    def extra_checks(self):
+        """identifiers of frames: while a frame is waiting for its answer no later frame may carry the same identifier - not even
+        after very many frames (an identifier counter that wraps).  70000 frames go out and are answered at once while the first
+        one stays unanswered."""
+        import struct as _s
+        from ebpfcat.ethercat import EtherCat, Packet, ECCmd
+
+        async def go():
+            ec = EtherCat("verif0")
+            sent = []
+
+            class Transport:
+                def sendto(self, frame, addr=None):
+                    sent.append(bytes(frame))
+            ec.transport = Transport()
+            p = Packet()
+            p.append(ECCmd.FPRD, b"\0\0", 0, 1001, 0x10)
+            first = ec.roundtrip_packet(p)
+            idx0 = _s.unpack_from("<I", sent[0], 4)[0]
+            n = 70000
+            for k in range(n):
+                f = ec.roundtrip_packet(p)
+                frame = sent.pop()
+                idx = _s.unpack_from("<I", frame, 4)[0]
+                if idx == idx0:
+                    return f"frame {k + 1} after an unanswered frame carries the same identifier {idx0:#x}"
+                ec.datagram_received(frame, None)
+                if not f.done():
+                    return f"frame {k + 1} did not get its own answer"
+            if first.done():
+                return "the unanswered first frame was completed by somebody else's answer"
+            first.cancel()
+            return None
+        try:
+            bad = asyncio.run(go())
+        except Exception as e:      # noqa
+            bad = f"{type(e).__name__}: {e}"
+        return [("frame-identifiers-unique-while-waiting", bad is None, f"70000 frames sent and answered while the first one stays unanswered; {bad}")]
+
     def rule(self):
         return ("argument lists of 0-3 (format, values) groups over B H I Q b h i q, 8% floating-point e f d (values incl. -0.0, preceded by the same request with +0.0; oracle only), pad bytes, byte strings and counted items, "
                 "optional trailing read-only format, data = None / count (often 0) / bytes (often empty); 8% malformed "
